@@ -104,7 +104,11 @@ fn case(seed: u64, lane: Lane, trace: bool, stale_focus: bool) -> CaseOut {
             ran.w.mon.cnt.inc("c09.isolation_checks");
             if c.app.lost_count > 0 {
                 let peer_closed = ran.w.mon.closed_pairs.contains(&c.pair);
-                let tolerated = c.app.lost.iter().all(|l| l.contains("INVALID_TOKEN")) && ran.w.mon.rebinds > 0;
+                // (a Retry token moved by a rebinding; and the error RFC 9000 5.1.2 allows an
+                // endpoint to raise when its peer rotates CIDs faster than RETIRE_CONNECTION_ID
+                // frames can be delivered - rotation every few tens of ms under loss does that)
+                let tolerated = (c.app.lost.iter().all(|l| l.contains("INVALID_TOKEN")) && ran.w.mon.rebinds > 0)
+                    || (h.cid_lifetime_ms.map_or(false, |l| l < 100) && c.app.lost.iter().all(|l| l.contains("queued too many retired CIDs") || l.contains("CONNECTION_ID_LIMIT_ERROR")));
                 if !peer_closed && c.local_close_at.is_none() && !tolerated {
                     msgs.push(format!("conn {ei}/{ch} (pair {:x}) lost {:?} although neither side closed it and idle timeouts are off | {}", c.pair, c.app.lost, h.summary()));
                 }
